@@ -572,7 +572,19 @@ class SymExec(object):
             else:
                 if d.is_const():
                     return [((d.c == 0) == (op == '=='), st)]
-                return self._fork(self.text_of(c, st), st)
+                # canonical text: operands ordered, so `a == 0` and `0 == a` are one atom; the equal side learns d = 0
+                ka, kb = repr(a), repr(b)
+                txt = '(%s == %s)' % ((ka, kb) if (kb.lstrip('-').isdigit() or ka <= kb) and not ka.lstrip('-').isdigit() else (kb, ka))
+                outs = self._fork(txt, st)
+                res = []
+                for truth, s2 in outs:
+                    if truth:
+                        if s2 is st:
+                            s2 = st.copy()
+                        s2.facts.add(d.key())
+                        s2.facts.add(d.scale(-1).key())
+                    res.append(((truth if op == '==' else not truth), s2))
+                return res
             r = self.decide_le(l, st)
             if r is not None:
                 return [(r, st)]
